@@ -477,7 +477,20 @@ func NewOwn(imp *fixture.Importer) *Own {
 	for _, f := range c.Files {
 		pos = f.End() - 3
 	}
-	return &Own{c.Fset, c.Pkg, pos}
+	o := &Own{c.Fset, c.Pkg, pos}
+	cache := map[string]types.Type{}
+	TypeEval = func(key string) types.Type {
+		if t, ok := cache[key]; ok {
+			return t
+		}
+		tv, err := o.Eval(key)
+		if err != nil || !tv.IsType() {
+			return nil
+		}
+		cache[key] = tv.Type
+		return tv.Type
+	}
+	return o
 }
 
 func (o *Own) Eval(text string) (types.TypeAndValue, error) {
